@@ -210,7 +210,7 @@ def run_property(prop, tier, seed, only=None):
           f"violations={len(violations)} known={len(seen)} wall={wall:.1f}s")
     if errors:
         for e in errors[:10]:
-            print(f'HARNESS-ERROR {e[:1200]}')
+            print(f'HARNESS-ERROR {e[:500]}')
         if not violations:
             return 2
     return 1 if violations else 0
